@@ -1,5 +1,6 @@
 import BevySyncModel.Proofs.Asset
 import BevySyncModel.Proofs.Mat
+import BevySyncModel.Proofs.MatLive
 import BevySyncModel.Generated.Asset
 import BevySyncModel.Generated.Http
 /-! # C06 — assets published under a uuid replicate with identical content
@@ -52,6 +53,12 @@ theorem C06_no_echo_host_epoch (s : Asset.State) (as : List Asset.Act) (hi : Ass
   intro c hc
   have h := (Asset.hinv_run s as hi ha).2 c hc
   exact ⟨h.1, h.2.1⟩
+
+/-- **inline materials: "once traffic has drained" is reached, not assumed** — from any state with distinct client ids,
+three fair rounds without publications end in a quiescent state (the premise of the convergence theorem below) -/
+theorem C06_materials_drain_reached (s : Mat.State) (hn : (s.clients.map (·.id)).Nodup) :
+    Mat.Quiescent (Mat.round (Mat.round (Mat.round s))) :=
+  Mat.three_rounds_quiescent s hn
 
 /-- **C06, materials.** The same statement for the inline path. -/
 theorem C06_materials_converge (x : Option Nat) (s : Mat.State) (es : List Mat.Epoch)
